@@ -47,6 +47,7 @@ func init() {
 	gwReg("c12", gw.RunC12)
 	gwReg("c11", gw.RunC11)
 	gwReg("c10", gw.RunC10)
+	gwReg("c16", gw.RunC16)
 	register("gw", "smoke", true, func(t *testing.T, r *sim.Run) { gw.PreBubble(); inBubble(t, true, func() { gw.RunSmoke(r) }) })
 	register("store", "c19", true, func(t *testing.T, r *sim.Run) { inBubble(t, true, func() { store.RunC19(r) }) })
 	register("tb", "c06", false, func(t *testing.T, r *sim.Run) { inBubble(t, false, func() { tb.RunC06(r) }) })
